@@ -74,7 +74,7 @@ TWStart ==
   /\ fnExec' = Put(fnExec, Cur.fn, Cur.e)
   /\ running' = Put(running, Cur.key, Cur.e)
   /\ execs' = Put(execs, Cur.e, [key |-> Cur.key, fn |-> Cur.fn, line |-> l, resolved |-> FALSE, ended |-> FALSE, mode |-> Cur.mode,
-                                  rate |-> Cur.rate_us, fail |-> Cur.fail, inner |-> Cur.mode = "value"])
+                                  rate |-> Cur.rate_us, fail |-> Cur.fail, inner |-> Cur.mode = "value", kind |-> ""])
   /\ starts' = {s \in starts : s.key # Cur.key}       \* every earlier Start of this key is now followed by an execution
   /\ UNCHANGED <<pend, ncalls, fnsOf, rlc, answered>>
 
@@ -119,17 +119,25 @@ TRet ==
      /\ TLog[pend[g].line].ret = l
      /\ \/ pend[g].st = "start" /\ Cur.r = "nil"                 \* start-style calls return no outcome channel
         \/ /\ pend[g].st = "called" /\ Cur.r = "ok"
-           /\ Answers(Cur.e, g) /\ execs[Cur.e].resolved /\ execs[Cur.e].mode # "never" /\ ~execs[Cur.e].fail
+           /\ Answers(Cur.e, g) /\ execs[Cur.e].resolved /\ execs[Cur.e].mode # "never"
+           /\ (execs[Cur.e].mode = "multi" \/ ~execs[Cur.e].fail)
         \/ /\ pend[g].st = "called" /\ Cur.r = "err"             \* the error of the answering execution, and no result
-           /\ Answers(Cur.e, g) /\ execs[Cur.e].resolved /\ execs[Cur.e].mode # "never" /\ execs[Cur.e].fail
+           /\ Answers(Cur.e, g) /\ execs[Cur.e].resolved /\ execs[Cur.e].mode # "never"
+           /\ (execs[Cur.e].mode = "multi" \/ execs[Cur.e].fail)
         \/ /\ pend[g].st = "called" /\ Cur.r = "notresolved"     \* the work function returned without resolving
            /\ \E e \in DOMAIN execs : Answers(e, g) /\ execs[e].mode = "never" /\ execs[e].ended /\ execs[e].inner
         \/ /\ pend[g].st = "called" /\ Cur.r = "rlcancelled"     \* a rate limit whose context is cancelled answers with its error
            /\ rlc /\ \E e \in DOMAIN execs : Answers(e, g) /\ execs[e].rate > 0 /\ ~execs[e].inner
      /\ Cur.closed                                              \* outcome channels are closed after the outcome
+     \* mode "multi": several goroutines resolved at the same instant, with different outcomes ("ok" and "err"): only the
+     \* first resolve counts, so all callers coalesced into the execution received the identical outcome
+     /\ IF Cur.r \in {"ok", "err"} /\ Cur.e \in DOMAIN execs
+           THEN /\ execs[Cur.e].kind \in {"", Cur.r}
+                /\ execs' = [execs EXCEPT ![Cur.e].kind = Cur.r]
+           ELSE execs' = execs
      /\ pend' = [pend EXCEPT ![g] = Idle]
      /\ answered' = IF pend[g].st = "called" THEN answered \cup {TLog[pend[g].line].fn} ELSE answered
-  /\ UNCHANGED <<running, execs, ncalls, fnsOf, starts, rlc, fnExec>>
+  /\ UNCHANGED <<running, ncalls, fnsOf, starts, rlc, fnExec>>
 
 \* a call without a work function panics and leaves no per-key state (the quiescent / final lines compare the key count)
 TBadCall == IsEv("badcall") /\ Consume /\ Cur.panicked /\ UNCHANGED <<vars, pend>>
